@@ -3,6 +3,7 @@ package main
 import (
 	"bytes"
 	"crypto/sha256"
+	"reflect"
 )
 
 // ReadOut is the observable outcome of one parser entry point.
@@ -23,6 +24,71 @@ type Reader func(in []byte, a Args) ReadOut
 var readers = map[string]Reader{}
 
 func regReader(name string, r Reader) { readers[name] = r }
+
+// reSerialise: the value's own serialisation method again (Bytes / Data), found by name through reflection.
+func reSerialise(val any) ([]byte, bool) {
+	v := reflect.ValueOf(val)
+	if !v.IsValid() || (v.Kind() == reflect.Pointer && v.IsNil()) {
+		return nil, false
+	}
+	for _, name := range []string{"Bytes", "Data"} {
+		m := v.MethodByName(name)
+		if !m.IsValid() && v.Kind() != reflect.Pointer && v.CanAddr() {
+			m = v.Addr().MethodByName(name)
+		}
+		if !m.IsValid() || m.Type().NumIn() != 0 || m.Type().NumOut() < 1 {
+			continue
+		}
+		if ot := m.Type().Out(0); ot.Kind() != reflect.Slice || ot.Elem().Kind() != reflect.Uint8 {
+			continue
+		}
+		outs := m.Call(nil)
+		if len(outs) == 2 && !outs[1].IsNil() {
+			return nil, false
+		}
+		b := make([]byte, outs[0].Len())
+		reflect.Copy(reflect.ValueOf(b), outs[0])
+		return b, true
+	}
+	return nil, false
+}
+
+// queryStability: every read-only argument-free method of an accepted value is called twice over (two full passes);
+// the second pass must render exactly as the first, and the value must serialise afterwards exactly as it did before.
+// (A query that reorders, caches into or otherwise disturbs the value it is asked about shows up here.)
+func queryStability(o ReadOut, r Res) {
+	r["stab"] = map[string]any{"done": false}
+	if !o.OK || o.Val == nil {
+		return
+	}
+	v := reflect.ValueOf(o.Val)
+	if v.Kind() == reflect.Pointer && v.IsNil() {
+		return
+	}
+	var unstable []any
+	msg := guarded(func() {
+		idx := readOnlyMethods(v)
+		first := make([]string, len(idx))
+		for j, i := range idx {
+			first[j] = render(v.Method(i).Call(nil))
+		}
+		for j, i := range idx {
+			if render(v.Method(i).Call(nil)) != first[j] {
+				unstable = append(unstable, v.Type().Method(i).Name)
+			}
+		}
+	})
+	if unstable == nil {
+		unstable = []any{}
+	}
+	st := map[string]any{"done": msg == "", "unstable": unstable, "reser": false, "ser2": []int{}}
+	if o.SerOK {
+		if b, ok := reSerialise(o.Val); ok {
+			st["reser"], st["ser2"] = true, ints(b)
+		}
+	}
+	r["stab"] = st
+}
 
 func (o ReadOut) res() Res {
 	r := Res{"ok": o.OK, "hasrem": o.HasRem, "serok": o.SerOK}
@@ -83,6 +149,7 @@ func init() {
 			s.Bufs[h] = in
 		}
 		r := o.res()
+		queryStability(o, r)
 		addSha(r, a)
 		return r
 	})
@@ -96,7 +163,9 @@ func init() {
 				return Res{"unknown_fn": true}
 			}
 			in := append([]byte{}, a.Bytes("in")...)
-			r := rd(in, a).res()
+			o := rd(in, a)
+			r := o.res()
+			queryStability(o, r)
 			r["fn"] = fn
 			results = append(results, r)
 		}
